@@ -113,6 +113,31 @@ func c02Eval(c *fw.Ctx, data any) {
 			return
 		}
 		c.Count("walked_ok", 1)
+		// group-mods (also bundled) once more in a top-down history: buckets recompute their length when they are
+		// encoded, and conntrack / note / learn actions keep their own length current, so the grammar must hold
+		// when such an action grows after it was put into its bucket (packet-out and instruction containers cache
+		// the length at insertion: builder discipline, not judged)
+		if inner := m; m.K == "group_mod" || (m.K == "bundle_add" && m.Sub("message") != nil && m.Sub("message").K == "group_mod") {
+			_ = inner
+			var lb []byte
+			var late int
+			var lerr error
+			p, pv, st := fw.Recover(func() {
+				msg, nl, e := lib.BuildMessageLate(m)
+				late, lerr = nl, e
+				if e == nil && nl > 0 {
+					lb, lerr = msg.MarshalBinary()
+				}
+			})
+			if p {
+				c.Violation(kind, "panic", "late-growth:"+fw.LibFrame(st), pv+"\n"+fw.TrimStack(st))
+			} else if lerr == nil && late > 0 {
+				c.Count("late_growth_histories", 1)
+				if _, err := spec.DecodeMessage(lb); err != nil {
+					c.Violation(kind, "grammar", "late-growth:"+ruleOf(err), fmt.Sprintf("%d action(s) grew after being put into their bucket: %v\nencoding (%d bytes): %s", late, err, len(lb), hexHead(lb)))
+				}
+			}
+		}
 		if c.WantSample() && n >= 3 && n <= 6 {
 			c.Sample(map[string]any{"mode": "msg", "recipe": m, "walked_bytes": len(b.bytes)})
 		}
